@@ -111,12 +111,14 @@ impl StdRoutingLogic {
         ignore_macs: bool,
     ) -> Result<IngressNextAction, StandardRoutingError> {
         // Advance the path
+        let arrival_hop_index = path.curr_hop_field_idx() as usize;
         let advance_result = path.advance_ingress_with_validator(
             StandardValidator {
                 ingress: true,
                 now,
                 interface_link_type_lookup,
                 current_interface_id: ingress_interface_id,
+                arrival_hop_index,
                 forwarding_key,
                 ignore_macs,
             },
@@ -181,9 +183,11 @@ impl StdRoutingLogic {
         ignore_macs: bool,
     ) -> Result<AsRoutingAction, StandardRoutingError> {
         // Advance the path
+        let arrival_hop_index = path.curr_hop_field_idx() as usize;
         let advance_result = path.advance_egress_with_validator(StandardValidator {
             ingress: false,
             current_interface_id: egress_if_id,
+            arrival_hop_index,
             now,
             interface_link_type_lookup,
             forwarding_key,
@@ -480,6 +484,8 @@ struct StandardValidator<'a, Lookup: Fn(u16) -> Option<AsRoutingInterfaceState>>
     now: ScionNetworkTime,
     interface_link_type_lookup: Lookup,
     current_interface_id: u16,
+    /// Index of the hop field which was current when the packet arrived at this router.
+    arrival_hop_index: usize,
     forwarding_key: &'a ForwardingKey,
     ignore_macs: bool,
 }
@@ -505,8 +511,12 @@ impl<'a, Lookup: Fn(u16) -> Option<AsRoutingInterfaceState>> AdvanceValidator
         match self.ingress {
             // Checks done on ingress
             true => {
+                // A packet from another AS must have arrived on the interface named by the hop
+                // field it arrived with. The hop field a segment change moves on to names the
+                // interface of the *other* segment (0 at a core AS, the parent link at a
+                // shortcut), it is not compared.
                 if self.current_interface_id != 0
-                    && ingress_interface != 0
+                    && hop_index == self.arrival_hop_index
                     && ingress_interface != self.current_interface_id
                 {
                     return Err(StandardRoutingError::InvalidIngressInterface {
